@@ -176,6 +176,7 @@ func (r *run) doVerifyVia(sp hdrSpec, tag string, via string) (accepted bool) {
 	r.emit(fmt.Sprintf("(CVerify %s %s %s %s)", before, coqHeader(m), code, coqPeers(after)), r.caseDesc(via, sp))
 	r.classCase(before, &sp, m)
 	r.oracle(&sp, h, m, err == nil && !panicked, sc)
+	r.trackMap(after, err == nil && !panicked, sc)
 	switch code {
 	case "KOk", "KFewListed", "KNonMember", "KFewDistinct", "KSigNotEnough", "KSigBad", "KSigFailed":
 		b, _ := json.Marshal(sp)
@@ -217,6 +218,7 @@ func (r *run) doAdd(sp hdrSpec, tag string) (accepted bool) {
 	r.classCase(before, &sp, m)
 	ok := err == nil && !panicked
 	r.oracle(&sp, h, m, ok, sc)
+	r.trackMap(after, ok, sc)
 	if ok {
 		if int(sp.Height) != len(e.chain) {
 			c.Fail("add:height-gap", "AddHeaders accepted a header that is not the next one", sc, tip, len(e.chain))
@@ -230,6 +232,39 @@ func (r *run) doAdd(sp hdrSpec, tag string) (accepted bool) {
 		r.syncPeers()
 	}
 	return ok
+}
+
+// trackMap compares vbftPeerInfoMap before and after one verifyHeader / AddHeaders / AddBlock call.
+// ORACLE: a call in which verifyHeader REJECTED the header must leave the map unchanged (the map is
+// what later headers are membership-checked against). Per height it records whether the current
+// entry was written by an accepted or by a rejected call.
+func (r *run) trackMap(after mPeers, accepted bool, sc scenario) {
+	e := r.e
+	var changed []uint32
+	for h, x := range after {
+		if y, ok := e.peers[h]; !ok || !sameSet(x, y) || len(x) != len(y) {
+			changed = append(changed, h)
+		}
+	}
+	for h := range e.peers {
+		if _, ok := after[h]; !ok {
+			changed = append(changed, h)
+		}
+	}
+	if len(changed) == 0 {
+		return
+	}
+	who := "accepted"
+	if !accepted {
+		who = "rejected"
+		h := changed[0]
+		r.c.Fail("peermap:changed-by-rejected-header",
+			"a header REJECTED by verifyHeader changed vbftPeerInfoMap (the peer sets later headers are checked against)",
+			sc, map[string]interface{}{"height": h, "entry_before": e.peers[h], "entry_after": after[h]}, "map unchanged")
+	}
+	for _, h := range changed {
+		e.writer[h] = who
+	}
 }
 
 // classCase ties the driver's classification (finding classes, governing height) to the Coq
@@ -277,6 +312,8 @@ func Run(c *hx.Ctx) {
 	}
 	r.fresh("overwrite")
 	r.witnessOverwrite()
+	r.fresh("rejected-poison")
+	r.probeRejectedPoison()
 	// one chain in the quick tier, several independent ones (fresh ledger, fresh keys) in the thorough tier
 	for chain := 0; chain < c.N(1, 8); chain++ {
 		r.fresh("main")
